@@ -387,8 +387,15 @@ def plan(pid: str, tier: str, seed: int) -> dict:
                               + straggler_jobs(progs, seed, ("CancelStage", "CompleteWorkflow") if quick else
                                                ("CancelStage", "CompleteWorkflow", "RunTask", "CompleteTask", "CompleteStage"),
                                                every=lambda p: [{"cancel_at": c} for c in range(2, refs[p["name"]]["steps"] + 1,
-                                                                                              3 if quick else 1)]),
+                                                                                              3 if quick else 1)])
+                              # a kill inside / right after the CancelWorkflow handler (its flag commit and its fan-out transaction are
+                              # two commits) and the CancelStage handlers that follow, then restart + recovery
+                              + [{"kind": "cancel-crash", "prog": p, "late_expire": le,
+                                  "cases": [(ca, rel) for ca in range(1, refs[p["name"]]["steps"] + 1, 3 if quick else 1)
+                                            for rel in range(1, 7 if quick else 13)]}
+                                 for p in progs[:6 if quick else len(progs)] for le in (False, True)],
             mc=[(n, {"AnyOrder": "TRUE", "MaxCancels": 1}, {}) for n in ("chain2", "multitask", "poll")]
+               + [("chain2", {"AnyOrder": "FALSE", "MaxCancels": 1, "MaxCrashes": 1}, {})]
                + [(n, {"AnyOrder": "FALSE", "MaxCancels": 1}, {}) for n in ("diamond", "failbranch", "selfloop", "firstof")]
                + [("chain2", {"AnyOrder": "TRUE", "MaxCancels": 1, "MaxWithhold": 1}, {})]
                + ([] if quick else [(n, {"AnyOrder": "TRUE", "MaxCancels": 1}, {"depth": 70}) for n in ("diamond", "failbranch")]),
